@@ -107,3 +107,32 @@ func cmdIMDecode(args []tok) string {
 	r2 := run(args[1:])
 	return r0 + " || SHIPPED " + r1 + " || AFTER " + r2
 }
+
+func init() { commands["imcustom"] = cmdIMCustom }
+
+// imcustom <ipfix|nf9> <x contents of an ipfix.elements file> <addr> <payload> ... : the history decoded (fresh cache) with the
+// information model LoadExtElements builds from the given file installed in a configuration directory (a site's own file: IANA
+// elements with other types, vendor elements); the built-in model is put back afterwards.  Results as ipfixh / nf9h print them.
+func cmdIMCustom(args []tok) string {
+	if len(args) < 4 || args[1].kind != 'b' {
+		return "BADARGS"
+	}
+	run := cmdIpfixH
+	if args[0].s == "nf9" {
+		run = cmdNf9H
+	}
+	saved := ipfix.InfoModel
+	defer func() { ipfix.InfoModel = saved }()
+	dir, err := ioutil.TempDir("", "verif-elements")
+	if err != nil {
+		return "ERR " + err.Error()
+	}
+	defer os.RemoveAll(dir)
+	if err := ioutil.WriteFile(filepath.Join(dir, "ipfix.elements"), args[1].b, 0644); err != nil {
+		return "ERR " + err.Error()
+	}
+	if err := ipfix.LoadExtElements(dir); err != nil {
+		return "ERR " + strings.ReplaceAll(err.Error(), " ", "_")
+	}
+	return run(args[2:])
+}
